@@ -37,7 +37,7 @@ HARNESSES.append(
                                 "parseGeneralNames:/for \\(c = p; c < save/": 10,
                                 "strncpy.0": 20, "vf_harness:/for \\(/": 11})]))
 PROPERTY = dict(level='model_checking',
-    claim='With every allocation allowed to fail (fault bits drawn from the tape, all schedules decided at once): no NULL dereference, failures are reported as negative return codes, nothing leaks after delete; in the handshake dispatcher (fragment buffers, cookie, NewSessionTicket) a failed allocation never leaves the session ticket pointer dangling or its length stale; eccTestPoint accepts a point only if every allocation and arithmetic step succeeded and the curve equation compared equal.',
+    claim='With every allocation allowed to fail (fault bits drawn from the tape, all schedules decided at once): no NULL dereference, failures are reported as negative return codes, nothing leaks after delete; in the handshake dispatcher (fragment buffers, cookie, NewSessionTicket) a failed allocation never leaves the session ticket pointer dangling or its length stale; eccTestPoint accepts a point only if every allocation and arithmetic step succeeded and the curve equation compared equal. matrixSslGetReadbufOfSize reports PS_MEM_FAIL with an empty buffer state and leaks nothing when an allocation fails.',
     bounds='matrixSslNewClientSession (callees stubbed), parseGeneralNames on 9-byte DER',
     outside='all other allocation sites (key loading, the per-message parsers, bignum scratch buffers, ticket keys)',
     explanation='With every allocation allowed to fail (fault bits drawn from the tape, all schedules decided at once): no NULL dereference, failures are reported as negative return codes, nothing leaks after delete; in the handshake dispatcher (fragment buffers, cookie, NewSessionTicket) a failed allocation never leaves the session ticket pointer dangling or its length stale; eccTestPoint accepts a point only if every allocation and arithmetic step succeeded and the curve equation compared equal.',
